@@ -4,8 +4,8 @@
    NOT theorems (search only): idempotence, numbering independence, tautomer enumeration, neutralisation. *)
 From Coq Require Import ZArith List String Bool.
 From Model Require Import PyBase Graph PeriodicTable Standardize StandardizeMatch StandardizeHyd StandardizeNeutral.
-From Gen Require Import Elements StdRules.
-From Proofs Require Import StandardizeProofs StandardizeExt StandardizeTables StandardizeHydProofs StandardizeHydGen StandardizeNeutralProofs.
+From Gen Require Import Elements StdRules C14Consts.
+From Proofs Require Import StandardizeProofs StandardizeExt StandardizeTables StandardizeHydProofs StandardizeHydGen StandardizeNeutralProofs StandardizeMatchProofs C14ConstsProofs.
 Import ListNotations.
 Open Scope Z_scope.
 
@@ -265,3 +265,73 @@ Theorem C14_neutralize_keep_conserves : forall g donors acceptors chosen g',
   skeleton g' = skeleton g /\ m_adj g' = m_adj g /\ total_charge g' = total_charge g /\ total_h g' = total_h g.
 Proof. exact neutralize_keep_conserves. Qed.
 Print Assumptions C14_neutralize_keep_conserves.
+
+(* ================= round 3: no oracle for the matcher ================= *)
+
+(* the executable matcher specification (brute-force embeddings, Model.StandardizeMatch) satisfies the matcher hypothesis
+   match_ok of the conservation theorems for EVERY molecule, rule of the tables and ring-size function *)
+Theorem C14_spec_matcher_sound : forall (rings : mol -> Z -> list Z) stage ridx r g mp,
+  In r (double_rules ++ single_rules ++ metal_rules) -> In mp (spec_matches rings stage ridx r g) -> match_ok r g mp = true.
+Proof. exact spec_matcher_sound. Qed.
+Print Assumptions C14_spec_matcher_sound.
+
+(* no hypothesis about the matcher left: for EVERY molecule with distinct atom numbers, every ring-size function and every
+   hydrogen calculator, standardize()'s four passes over the regenerated tables with the specified matcher (the five unbalanced
+   rules, which cannot match a valence-valid molecule, switched off) never fail and conserve atom numbers, order, elements,
+   isotopes, adjacency and net charge *)
+Theorem C14_engine_conserves : forall (rings : mol -> Z -> list Z) calc_h fix_taut g, NoDup (ids g) ->
+  exists g' log fixed,
+    standardize_passes (valid_matches rings) calc_h double_rules single_rules metal_rules fix_taut g = Ok (g', log, fixed) /\
+    conserved g g'.
+Proof. exact engine_conserves. Qed.
+Print Assumptions C14_engine_conserves.
+
+(* non-vacuity: with brute-force ring sizes and the C04 hydrogen model the engine converts nitromethane spelled C-N(=O)=O *)
+Theorem C14_engine_example :
+  exists g' log fixed,
+    standardize_passes (valid_matches rings_bf) calc_h double_rules single_rules metal_rules true (recalc calc_h nitro_mol (ids nitro_mol)) = Ok (g', log, fixed) /\
+    List.length log = 1%nat /\ charge_of g' 2 = Some 1 /\ total_charge g' = 0 /\
+    (charge_of g' 3 = Some (-1) \/ charge_of g' 4 = Some (-1)).
+Proof. exact engine_example. Qed.
+Print Assumptions C14_engine_example.
+
+(* ================= round 3: hand-copied constants tied to the source ================= *)
+(* Gen.C14Consts is regenerated on every run from the SOURCE (tools/gen_c14consts.py, Python ast, fail closed) *)
+
+(* the charge bound of `if a.charge > 4` is the bound of the model's patch loop (and of table obligation (ii)) *)
+Theorem C14_src_bad_charge_bound : forall mp e fx g hs n a,
+  zget mp (af_atom e) = Some n -> atom_of g n = Some a ->
+  afix_loop mp (e :: fx) g hs =
+    if a_chg a + af_delta e >? src_charge_limit then AfBad g (add_set n hs)
+    else afix_loop mp fx (upd_atom g n (set_chg_rad (a_chg a + af_delta e) (af_rad e))) (add_set n hs).
+Proof. exact src_afix_bad_charge. Qed.
+Print Assumptions C14_src_bad_charge_bound.
+
+(* implicify / explicify: the hydrogen atomic number, the protium isotope, max(atoms) + 1, _H(implicit_hydrogens=0), Bond(1) *)
+Theorem C14_src_hydrogen_constants :
+  (forall a, is_protium a = (a_num a =? src_atomic_number_h) && match a_iso a with None => true | Some i => i =? src_protium_isotope end) /\
+  (forall g ns, to_add (m_atoms g) = Ok ns -> ns <> [] -> explicify g = Ok (add_hs g ns (zmax (ids g) + src_new_atom_offset))) /\
+  h_atom = mkAtom src_atomic_number_h None 0 false (Some src_new_h_implicit) None /\ single = mkBond src_new_bond_order None /\
+  (forall g n m b rest d, b_ord b = src_special_order -> scan_h_bonds g n ((m, b) :: rest) d = scan_h_bonds g n rest d).
+Proof. exact (conj src_is_protium (conj src_explicify_shape (conj (proj1 src_new_hydrogen) (conj (proj2 src_new_hydrogen) src_scan_special)))). Qed.
+Print Assumptions C14_src_hydrogen_constants.
+
+(* the proton / charge steps of _neutralize, fix_resonance and standardize_charges *)
+Theorem C14_src_charge_steps :
+  (forall g minus plus, move_protons g minus plus = shift_all src_acceptor_step (shift_all src_donor_step g minus) plus) /\
+  (forall g d u, charged_patch g d u = upd_atom (upd_atom g d (set_chg src_discharged_value)) u (set_chg src_charged_value)) /\
+  (forall g n p am an, atom_of g (path_end n p) = Some am -> atom_of g n = Some an ->
+     apply_charge_path g n p =
+       apply_orders (upd_atom (upd_atom g (path_end n p) (fun a => set_chg (a_chg a + src_resonance_exit_step) a)) n
+                              (fun a => set_chg (a_chg a + src_resonance_entry_step) a)) p).
+Proof. exact (conj src_move_protons (conj src_charged_patch src_charge_path)). Qed.
+Print Assumptions C14_src_charge_steps.
+
+(* the attributes the four query-atom __eq__ methods read, in source order = the tests of Model.StandardizeMatch.atom_match *)
+Theorem C14_src_query_shapes :
+  src_eq_AnyMetal = ["is_forming_single_bonds"; "neighbors"; "hybridization"]%string /\
+  src_eq_AnyElement = ["charge"; "is_radical"; "neighbors"; "hybridization"; "ring_sizes"; "implicit_hydrogens"; "heteroatoms"]%string /\
+  src_eq_ListElement = ["atomic_number"; "charge"; "is_radical"; "neighbors"; "hybridization"; "ring_sizes"; "implicit_hydrogens"; "heteroatoms"]%string /\
+  src_eq_QueryElement = ["atomic_number"; "charge"; "is_radical"; "isotope"; "neighbors"; "hybridization"; "ring_sizes"; "implicit_hydrogens"; "heteroatoms"]%string.
+Proof. exact src_query_shapes. Qed.
+Print Assumptions C14_src_query_shapes.
